@@ -7,7 +7,9 @@
 package c10
 
 import (
+	"context"
 	"fmt"
+	"net/http"
 	"strings"
 
 	"github.com/go-openapi/runtime"
@@ -52,29 +54,31 @@ type Val struct{ N, V string }
 
 // Step is one operation built on the case's Runtime; a case is a history of builds on ONE Runtime.
 type Step struct {
-	Pat    Pat
-	Vals   []Val
-	CQ     []KV
-	OpAuth bool // the operation has an auth writer ...
-	AQ     []KV // ... which sets these query parameters (client.APIKeyAuth(name, "query", value)); none: an API key header
-	OS     []string
-	Orders [][]int
-	Reps   int
+	Pat     Pat
+	Vals    []Val
+	CQ      []KV
+	Entries []string // entry points through which the operation is built: create | submit | otel | opentracing (default: create)
+	OpAuth  bool     // the operation has an auth writer ...
+	AQ      []KV     // ... which sets these query parameters (client.APIKeyAuth(name, "query", value)); none: an API key header
+	OS      []string
+	Orders  [][]int
+	Reps    int
 }
 
 type Case struct {
-	DQ     []KV // query parameters set by Runtime.DefaultAuthentication (API keys in the query)
-	OpAuth bool // single-step form: see Step
-	AQ     []KV
-	Steps  []Step // when empty, the single step is given by Pat/Vals/CQ/OS/Orders/Reps below
-	Base   Base
-	Pat    Pat
-	Vals   []Val
-	CQ     []KV
-	RS, OS []string
-	Host   string
-	Orders [][]int
-	Reps   int
+	DQ      []KV // query parameters set by Runtime.DefaultAuthentication (API keys in the query)
+	OpAuth  bool // single-step form: see Step
+	AQ      []KV
+	Entries []string // entry points of every step that names none
+	Steps   []Step   // when empty, the single step is given by Pat/Vals/CQ/OS/Orders/Reps below
+	Base    Base
+	Pat     Pat
+	Vals    []Val
+	CQ      []KV
+	RS, OS  []string
+	Host    string
+	Orders  [][]int
+	Reps    int
 }
 
 func kvJSON(q []KV) []M {
@@ -120,15 +124,26 @@ func (st Step) JSON() M {
 		orders = [][]int{}
 	}
 	return M{"pat": M{"trailing": st.Pat.Trailing, "segs": segs, "query": kvJSON(st.Pat.Query)},
-		"vals": vals, "cq": kvJSON(st.CQ), "opauth": st.OpAuth, "aq": kvJSON(st.AQ), "os": trace.S(st.OS), "orders": orders, "reps": st.Reps}
+		"vals": vals, "cq": kvJSON(st.CQ), "opauth": st.OpAuth, "aq": kvJSON(st.AQ), "os": trace.S(st.OS), "orders": orders, "reps": st.Reps,
+		"entries": trace.S(st.Entries)}
 }
 
 func (c Case) steps() []Step {
-	if len(c.Steps) > 0 {
-		return c.Steps
+	steps := c.Steps
+	if len(steps) == 0 {
+		steps = []Step{{Pat: c.Pat, Vals: c.Vals, CQ: c.CQ, OpAuth: c.OpAuth, AQ: c.AQ, OS: c.OS, Orders: c.Orders, Reps: c.Reps}}
 	}
-	return []Step{{Pat: c.Pat, Vals: c.Vals, CQ: c.CQ, OpAuth: c.OpAuth, AQ: c.AQ, OS: c.OS, Orders: c.Orders, Reps: c.Reps}}
+	out := make([]Step, len(steps))
+	for i, st := range steps {
+		if len(st.Entries) == 0 {
+			st.Entries = c.Entries
+		}
+		out[i] = st
+	}
+	return out
 }
+
+var allEntries = []string{"create", "submit", "otel", "opentracing"}
 
 func (c Case) JSON() M {
 	steps := make([]M, 0)
@@ -177,6 +192,9 @@ func caseFrom(d M) Case {
 		}
 		st.CQ = kvFrom(sm["cq"])
 		st.OpAuth, st.AQ = drv.Bool(sm["opauth"]), kvFrom(sm["aq"])
+		for _, e := range drv.List(sm["entries"]) {
+			st.Entries = append(st.Entries, drv.Str(e))
+		}
 		for _, s := range drv.List(sm["os"]) {
 			st.OS = append(st.OS, drv.Str(s))
 		}
@@ -273,7 +291,16 @@ type obs struct {
 	pnc    bool
 }
 
-func build(rt *client.Runtime, st Step, order []int) (o obs) {
+// urlRecorder is the RoundTripper of the case's Runtime: it notes the URL of the request that is really sent.
+type urlRecorder struct{ last *http.Request }
+
+func (u *urlRecorder) RoundTrip(req *http.Request) (*http.Response, error) {
+	u.last = req
+	return &http.Response{StatusCode: http.StatusNoContent, Status: "204 No Content", Proto: "HTTP/1.1", ProtoMajor: 1, ProtoMinor: 1,
+		Header: http.Header{}, Body: http.NoBody, Request: req}, nil
+}
+
+func build(rt *client.Runtime, rec *urlRecorder, st Step, order []int, entry string) (o obs) {
 	defer func() {
 		if e := recover(); e != nil {
 			o = obs{err: true, pnc: true}
@@ -298,7 +325,28 @@ func build(rt *client.Runtime, st Step, order []int) (o obs) {
 	if st.OpAuth {
 		op.AuthInfo = keyWriter(st.AQ)
 	}
-	req, err := rt.CreateHttpRequest(op)
+	var req *http.Request
+	var err error
+	if entry == "" || entry == "create" {
+		req, err = rt.CreateHttpRequest(op)
+	} else {
+		// really submitted: directly, or through one of the tracing transports (which act on operations with a context)
+		op.Reader = runtime.ClientResponseReaderFunc(func(runtime.ClientResponse, runtime.Consumer) (any, error) { return nil, nil })
+		op.Context = context.Background()
+		var tr runtime.ClientTransport = rt
+		switch entry {
+		case "otel":
+			tr = rt.WithOpenTelemetry()
+		case "opentracing":
+			tr = rt.WithOpenTracing()
+		}
+		rec.last = nil
+		_, err = tr.Submit(op)
+		req = rec.last
+		if err == nil && req == nil {
+			return obs{err: true}
+		}
+	}
 	if err != nil {
 		return obs{err: true}
 	}
@@ -329,12 +377,14 @@ func keyWriter(q []KV) runtime.ClientAuthInfoWriter {
 func execute(c *drv.Ctx, d M) bool {
 	cs := caseFrom(d)
 	var rt *client.Runtime
+	rec := &urlRecorder{}
 	func() {
 		defer func() { _ = recover() }()
 		rt = client.New(cs.Host, cs.Base.String(), cs.RS)
 		if len(cs.DQ) > 0 {
 			rt.DefaultAuthentication = keyWriter(cs.DQ)
 		}
+		rt.Transport = rec
 	}()
 	nt := false
 	for si, st := range cs.Steps {
@@ -348,11 +398,15 @@ func execute(c *drv.Ctx, d M) bool {
 		}
 		var seen []obs
 		var count []int
+		entries := st.Entries
+		if len(entries) == 0 {
+			entries = []string{"create"}
+		}
 		for _, ord := range orders {
-			for r := 0; r < reps; r++ {
+			for r := 0; r < reps*len(entries); r++ {
 				o := obs{err: true, pnc: true}
 				if rt != nil {
-					o = build(rt, st, ord)
+					o = build(rt, rec, st, ord, entries[r%len(entries)])
 				}
 				found := false
 				for i := range seen {
@@ -582,7 +636,7 @@ func generate(c *drv.Ctx) {
 	}
 	for _, k1 := range combos {
 		for _, k2 := range combos {
-			cs := Case{Base: Base{Lead: true, Segs: []string{"api"}}, Pat: simple, Vals: []Val{{"a", "v"}}, Host: "h:1", Orders: [][]int{{0}}, Reps: 1}
+			cs := Case{Base: Base{Lead: true, Segs: []string{"api"}}, Pat: simple, Vals: []Val{{"a", "v"}}, Host: "h:1", Orders: [][]int{{0}}, Reps: 1, Entries: allEntries}
 			cs.Base.Query = append(lvl("k", "b", k1.b), lvl("q", "B", k2.b)...)
 			cs.Pat.Query = append(lvl("k", "p", k1.p), lvl("q", "P", k2.p)...)
 			cs.CQ = append(lvl("k", "c", k1.c), lvl("q", "C", k2.c)...)
@@ -603,7 +657,7 @@ func generate(c *drv.Ctx) {
 							if !opauth && oi > 0 {
 								continue
 							}
-							cs := Case{Base: Base{Lead: true, Segs: []string{"api"}, Query: bq}, DQ: dq, Host: "h:1"}
+							cs := Case{Base: Base{Lead: true, Segs: []string{"api"}, Query: bq}, DQ: dq, Host: "h:1", Entries: allEntries}
 							p := simple
 							p.Query = pq
 							cs.Steps = []Step{{Pat: p, Vals: []Val{{"a", "v"}}, CQ: cq, OpAuth: opauth, AQ: aq, Orders: [][]int{{0}}, Reps: 1}}
@@ -633,7 +687,7 @@ func generate(c *drv.Ctx) {
 	recS(nil, 3)
 	for _, rs := range lists {
 		for _, os := range lists {
-			c.Case(Case{Base: Base{Lead: true}, Pat: simple, Vals: []Val{{"a", "v"}}, RS: rs, OS: os, Host: "example.com:8443", Orders: [][]int{{0}}, Reps: 1}.JSON())
+			c.Case(Case{Base: Base{Lead: true}, Pat: simple, Vals: []Val{{"a", "v"}}, RS: rs, OS: os, Host: "example.com:8443", Orders: [][]int{{0}}, Reps: 1, Entries: allEntries}.JSON())
 			nExh++
 		}
 	}
@@ -646,7 +700,7 @@ func generate(c *drv.Ctx) {
 		for _, o1 := range opLists {
 			for _, o2 := range opLists {
 				for _, o3 := range append([][]string{{"-"}}, opLists...) {
-					cs := Case{Base: Base{Lead: true}, RS: rs, Host: "h:1"}
+					cs := Case{Base: Base{Lead: true}, RS: rs, Host: "h:1", Entries: allEntries}
 					for _, os := range [][]string{o1, o2, o3} {
 						if len(os) == 1 && os[0] == "-" {
 							continue
@@ -667,7 +721,7 @@ func generate(c *drv.Ctx) {
 	for bi, b := range basePool {
 		for i1 := range hp {
 			for i2 := range hp {
-				cs := Case{Base: b, Host: "h:1"}
+				cs := Case{Base: b, Host: "h:1", Entries: allEntries}
 				if bi%2 == 0 {
 					cs.Base.Query = []KV{{"k", []string{"b"}}, {"z", []string{"9"}}}
 				}
@@ -687,6 +741,7 @@ func generate(c *drv.Ctx) {
 	}
 	for i := 0; i < n; i++ {
 		cs := randomCase(c, reps)
+		cs.Entries = allEntries
 		if i%4 == 0 {
 			// a random history: further operations on the same Runtime (same base path, host, runtime schemes)
 			cs.Steps = []Step{{Pat: cs.Pat, Vals: cs.Vals, CQ: cs.CQ, OpAuth: cs.OpAuth, AQ: cs.AQ, OS: cs.OS, Orders: cs.Orders, Reps: cs.Reps}}
